@@ -227,3 +227,338 @@ Proof.
   intro H. destruct (execA false cap tr _ _ (initA cap wfs) H) as [Hs _].
   unfold running. fold (cnt holding (s_tasks st)). lia.
 Qed.
+
+(* ============================ part B: errgroups, program counters ============ *)
+
+Lemma cnt_upd_same {A} (P : A -> bool) (l : list A) i x y :
+  nth_error l i = Some x -> P y = P x -> cnt P (upd l i y) = cnt P l.
+Proof. intros H E. pose proof (cnt_upd P l i x y H) as C. rewrite E in C. lia. Qed.
+
+Lemma nth_upd_cases {A} (l : list A) i j y z :
+  nth_error (upd l i y) j = Some z ->
+  (i = j /\ z = y /\ exists x, nth_error l i = Some x) \/ (i <> j /\ nth_error l j = Some z).
+Proof.
+  intro H. destruct (Nat.eq_dec i j) as [->|N].
+  - left. destruct (nth_error l j) as [x|] eqn:E.
+    + rewrite (nth_error_upd_same _ _ _ y E) in H. inversion H. eauto.
+    + exfalso. apply nth_error_None in E.
+      assert (L : nth_error (upd l j y) j = None) by (apply nth_error_None; rewrite length_upd; exact E).
+      rewrite L in H. discriminate H.
+  - right. rewrite nth_error_upd_other in H by exact N. auto.
+Qed.
+
+Definition pc_ok (fs : fstate) : Prop :=
+  match f_pc fs with
+  | FVisit | FWait SC => True
+  | FPost | FWait PY => eg_pending (f_sc fs) = 0 /\ eg_err (f_sc fs) = false
+  | FDone false => eg_pending (f_sc fs) = 0 /\ eg_err (f_sc fs) = false /\
+                   eg_pending (f_py fs) = 0 /\ eg_err (f_py fs) = false
+  | FDone true => eg_err (f_sc fs) = true \/ eg_err (f_py fs) = true
+  end.
+
+Definition main_ok (st : state) : Prop :=
+  match s_main st with
+  | MRun => True
+  | MWait => all_files_done st = true
+  | MAfter => all_files_done st = true /\ s_wg st = 0
+  | MReturned fatal => all_files_done st = true /\ s_wg st = 0 /\ fatal = any_file_err st
+  end.
+
+Definition eg_ok (st : state) : Prop :=
+  forall f fs r, nth_error (s_files st) f = Some fs ->
+    eg_pending (eg_of fs r) = cnt (live_in f r) (s_tasks st) /\
+    eg_err (eg_of fs r) = (0 <? cnt (failed_in f r) (s_tasks st)).
+
+Record InvB (st : state) : Prop := {
+  inv_eg : eg_ok st;
+  inv_tfile : forall t x, nth_error (s_tasks st) t = Some x -> t_file x < length (s_files st);
+  inv_pc : forall f fs, nth_error (s_files st) f = Some fs -> pc_ok fs;
+  inv_main : main_ok st }.
+
+Lemma eg_of_set_same fs r g : eg_of (set_eg fs r g) r = g.
+Proof. destruct r; reflexivity. Qed.
+Lemma eg_of_set_other fs r r' g : r <> r' -> eg_of (set_eg fs r g) r' = eg_of fs r'.
+Proof. destruct r, r'; intro N; try reflexivity; contradiction. Qed.
+Lemma f_pc_set_eg fs r g : f_pc (set_eg fs r g) = f_pc fs.
+Proof. destruct r; reflexivity. Qed.
+
+(* a task whose phase moves between phases that are neither "called" nor "done"
+   changes no errgroup count *)
+Lemma eg_counts_same tasks t x y :
+  nth_error tasks t = Some x -> t_file y = t_file x -> t_inv y = t_inv x ->
+  live y = live x -> andb (called y) (is_cerr (t_cb y)) = andb (called x) (is_cerr (t_cb x)) ->
+  forall f r, cnt (live_in f r) (upd tasks t y) = cnt (live_in f r) tasks /\
+              cnt (failed_in f r) (upd tasks t y) = cnt (failed_in f r) tasks.
+Proof.
+  intros Hx Ef Ei El Ec f r. split; apply (cnt_upd_same _ _ _ x); auto.
+  - unfold live_in, in_eg. now rewrite Ef, Ei, El.
+  - unfold failed_in, in_eg. now rewrite Ef, Ei, Ec.
+Qed.
+
+Lemma all_done_nth st f fs :
+  all_files_done st = true -> nth_error (s_files st) f = Some fs -> exists e, f_pc fs = FDone e.
+Proof.
+  intros H Hn. pose proof (forallb_nth _ _ _ _ H Hn) as D. unfold is_done_pc in D.
+  destruct (f_pc fs); try discriminate D. eauto.
+Qed.
+
+Lemma main_not_run_done st : main_ok st -> s_main st <> MRun -> all_files_done st = true.
+Proof. unfold main_ok. destruct (s_main st); intros H N; tauto. Qed.
+
+(* file updates that keep the program counter keep the main-thread facts *)
+Lemma main_ok_files st files' wg' :
+  main_ok st -> (wg' = s_wg st \/ wg' = pred (s_wg st)) ->
+  forallb is_done_pc files' = forallb is_done_pc (s_files st) ->
+  existsb is_err_pc files' = existsb is_err_pc (s_files st) ->
+  forall tasks' free' diags',
+  main_ok {| s_free := free'; s_wg := wg'; s_tasks := tasks'; s_files := files'; s_diags := diags'; s_main := s_main st |}.
+Proof.
+  unfold main_ok, all_files_done, any_file_err. intros H Hw E1 E2 tasks' free' diags'. cbn.
+  destruct (s_main st); auto; rewrite E1, ?E2.
+  - exact H.
+  - destruct H as [H1 H2]. split; [exact H1|]. destruct Hw as [->| ->]; lia.
+  - destruct H as [H1 [H2 H3]]. repeat split; auto. destruct Hw as [->| ->]; lia.
+Qed.
+
+Lemma pc_same_done fs fs' : f_pc fs' = f_pc fs -> is_done_pc fs' = is_done_pc fs /\ is_err_pc fs' = is_err_pc fs.
+Proof. unfold is_done_pc, is_err_pc. intros ->. auto. Qed.
+
+(* a live task of errgroup (f, r) keeps its pending count positive *)
+Lemma live_pending st t x fs :
+  eg_ok st -> nth_error (s_tasks st) t = Some x -> live x = true ->
+  nth_error (s_files st) (t_file x) = Some fs -> 1 <= eg_pending (eg_of fs (i_rule (t_inv x))).
+Proof.
+  intros He Hx Hl Hf. destruct (He _ _ (i_rule (t_inv x)) Hf) as [-> _].
+  apply (cnt_pos _ _ t x Hx). unfold live_in, in_eg. now rewrite Nat.eqb_refl, rule_eqb_refl, Hl.
+Qed.
+
+Lemma stepB st e st' : InvB st -> step true st e = Some st' -> InvB st'.
+Proof.
+  intros [He Ht Hp Hm] H. destruct e; cbn [step] in H.
+  - (* spawn *)
+    destruct (nth_error (s_files st) f) as [fs|] eqn:Hf; [|discriminate H].
+    destruct (f_pc fs) eqn:Hpc; try discriminate H.
+    destruct (remove_inv i (f_todo fs)) as [todo'|]; [|discriminate H].
+    injection H as <-. constructor; unfold eg_ok; cbn [with_file with_task with_main s_tasks s_files s_main s_wg].
+    + intros f' fs' r Hn. rewrite !cnt_app1.
+      set (nt := {| t_file := f; t_inv := i; t_phase := PSpawned; t_cb := CErr |}).
+      assert (F1 : failed_in f' r nt = false) by (unfold failed_in, called, nt; cbn; now rewrite andb_false_r).
+      assert (L1 : live_in f' r nt = andb (Nat.eqb f f') (rule_eqb (i_rule i) r))
+        by (unfold live_in, in_eg, live, nt; cbn; now rewrite andb_true_r).
+      rewrite F1, L1. cbn [b2n]. rewrite Nat.add_0_r.
+      apply nth_upd_cases in Hn. destruct Hn as [(<- & -> & _)|(N & Hn)].
+      * destruct (He _ _ r Hf) as [E1 E2]. rewrite Nat.eqb_refl. cbn [andb].
+        destruct (rule_eqb (i_rule i) r) eqn:Er.
+        -- apply rule_eqb_eq in Er. subst r. rewrite eg_of_set_same. cbn [eg_pending eg_err b2n].
+           replace (eg_of {| f_pc := FVisit; f_todo := todo'; f_sc := f_sc fs; f_py := f_py fs |} (i_rule i))
+             with (eg_of fs (i_rule i)) by (destruct (i_rule i); reflexivity).
+           rewrite E1, E2. split; [lia|reflexivity].
+        -- assert (N : i_rule i <> r) by (intro; subst; rewrite rule_eqb_refl in Er; discriminate Er).
+           rewrite eg_of_set_other by exact N.
+           replace (eg_of {| f_pc := FVisit; f_todo := todo'; f_sc := f_sc fs; f_py := f_py fs |} r) with (eg_of fs r)
+             by (destruct r; reflexivity).
+           cbn [b2n]. rewrite E1, E2. split; [lia|reflexivity].
+      * destruct (He _ _ r Hn) as [E1 E2].
+        replace (Nat.eqb f f') with false by (symmetry; apply Nat.eqb_neq; exact N). cbn [andb b2n].
+        rewrite E1, E2. split; [lia|reflexivity].
+    + intros t x Hn. rewrite length_upd.
+      destruct (Nat.lt_ge_cases t (length (s_tasks st))) as [L|L].
+      * rewrite nth_error_app1 in Hn by exact L. eauto.
+      * rewrite nth_error_app2 in Hn by exact L.
+        destruct (t - length (s_tasks st)) as [|k]; cbn in Hn.
+        -- inversion Hn. cbn. apply nth_error_Some. rewrite Hf. discriminate.
+        -- destruct k; discriminate Hn.
+    + intros f' fs' Hn. apply nth_upd_cases in Hn. destruct Hn as [(<- & -> & _)|(N & Hn)]; [|eauto].
+      unfold pc_ok. rewrite f_pc_set_eg. exact I.
+    + (* main: a file is still visiting, so the main thread is running *)
+      unfold main_ok in *. cbn [s_main s_wg all_files_done any_file_err s_files].
+      destruct (s_main st) eqn:Em; auto; exfalso;
+        assert (D : all_files_done st = true) by tauto;
+        destruct (all_done_nth _ _ _ D Hf) as [e E]; rewrite E in Hpc; discriminate Hpc.
+  - (* acquire *)
+    destruct (nth_error (s_tasks st) t) as [x|] eqn:Hx; [|discriminate H].
+    destruct (s_free st) as [|n]; [discriminate H|].
+    destruct (phase_eqb (t_phase x) PSpawned) eqn:Hph; [|discriminate H]. phase_of Hph.
+    injection H as <-.
+    assert (C := eg_counts_same _ _ _ (set_phase x PAcquired) Hx eq_refl eq_refl
+                   ltac:(unfold live; cbn; now rewrite Hph) ltac:(unfold called; cbn; now rewrite Hph)).
+    constructor; unfold eg_ok; cbn [with_file with_task with_main s_tasks s_files s_main s_wg].
+    + intros f fs r Hn. destruct (C f r) as [-> ->]. exact (He _ _ r Hn).
+    + intros t' x' Hn. apply nth_upd_cases in Hn. destruct Hn as [(_ & -> & _)|(_ & Hn)]; [cbn|]; eauto.
+    + exact Hp.
+    + exact (main_ok_files st _ _ Hm (or_introl eq_refl) eq_refl eq_refl _ _ _).
+  - (* exit *)
+    destruct (nth_error (s_tasks st) t) as [x|] eqn:Hx; [|discriminate H].
+    destruct (phase_eqb (t_phase x) PAcquired) eqn:Hph; [|discriminate H]. phase_of Hph.
+    injection H as <-.
+    match goal with |- InvB {| s_free := _; s_wg := _; s_tasks := upd _ _ ?y; s_files := _; s_diags := _; s_main := _ |} =>
+      assert (C := eg_counts_same _ _ _ y Hx eq_refl eq_refl
+                   ltac:(unfold live; cbn; now rewrite Hph) ltac:(unfold called; cbn; now rewrite Hph)) end.
+    constructor; unfold eg_ok; cbn [with_file with_task with_main s_tasks s_files s_main s_wg].
+    + intros f fs r' Hn. destruct (C f r') as [-> ->]. exact (He _ _ r' Hn).
+    + intros t' x' Hn. apply nth_upd_cases in Hn. destruct Hn as [(_ & -> & _)|(_ & Hn)]; [cbn|]; eauto.
+    + exact Hp.
+    + exact (main_ok_files st _ _ Hm (or_introl eq_refl) eq_refl eq_refl _ _ _).
+  - (* release *)
+    destruct (nth_error (s_tasks st) t) as [x|] eqn:Hx; [|discriminate H].
+    destruct (phase_eqb (t_phase x) PExited) eqn:Hph; [|discriminate H]. phase_of Hph.
+    injection H as <-.
+    assert (C := eg_counts_same _ _ _ (set_phase x PReleased) Hx eq_refl eq_refl
+                   ltac:(unfold live; cbn; now rewrite Hph) ltac:(unfold called; cbn; now rewrite Hph)).
+    constructor; unfold eg_ok; cbn [with_file with_task with_main s_tasks s_files s_main s_wg].
+    + intros f fs r Hn. destruct (C f r) as [-> ->]. exact (He _ _ r Hn).
+    + intros t' x' Hn. apply nth_upd_cases in Hn. destruct Hn as [(_ & -> & _)|(_ & Hn)]; [cbn|]; eauto.
+    + exact Hp.
+    + exact (main_ok_files st _ _ Hm (or_introl eq_refl) eq_refl eq_refl _ _ _).
+  - (* callback *)
+    destruct (nth_error (s_tasks st) t) as [x|] eqn:Hx; [|discriminate H].
+    destruct (phase_eqb (t_phase x) PReleased) eqn:Hph; [|discriminate H]. phase_of Hph.
+    destruct (nth_error (s_files st) (t_file x)) as [fs|] eqn:Hf; [|discriminate H].
+    injection H as <-.
+    assert (Lx : live x = true) by (unfold live; now rewrite Hph).
+    pose proof (live_pending st t x fs He Hx Lx Hf) as Pend.
+    set (r0 := i_rule (t_inv x)) in *.
+    constructor; unfold eg_ok; cbn [with_file with_task with_main s_tasks s_files s_main s_wg].
+    + intros f fs' r Hn.
+      assert (CL : cnt (live_in f r) (upd (s_tasks st) t (set_phase x PCalled)) = cnt (live_in f r) (s_tasks st)).
+      { apply (cnt_upd_same _ _ _ x _ Hx). unfold live_in, live. cbn. now rewrite Hph. }
+      assert (CF : cnt (failed_in f r) (upd (s_tasks st) t (set_phase x PCalled)) =
+                   cnt (failed_in f r) (s_tasks st) + b2n (andb (in_eg f r x) (is_cerr (t_cb x)))).
+      { assert (Fx : failed_in f r x = false) by (unfold failed_in, called; rewrite Hph; now rewrite andb_false_r).
+        assert (Fy : failed_in f r (set_phase x PCalled) = andb (in_eg f r x) (is_cerr (t_cb x))) by reflexivity.
+        pose proof (cnt_upd' (failed_in f r) _ _ _ (set_phase x PCalled) _ _ Hx Fx Fy) as C. cbn [b2n] in C. lia. }
+      rewrite CL, CF.
+      apply nth_upd_cases in Hn. destruct Hn as [(<- & -> & _)|(N & Hn)].
+      * destruct (He _ _ r Hf) as [E1 E2].
+        destruct (rule_eqb r0 r) eqn:Er.
+        -- apply rule_eqb_eq in Er. subst r. rewrite eg_of_set_same. cbn [eg_pending eg_err].
+           unfold in_eg. fold r0. rewrite Nat.eqb_refl, rule_eqb_refl. cbn [andb].
+           rewrite E1, E2. split; [reflexivity|].
+           destruct (is_cerr (t_cb x)); cbn [b2n].
+           ++ rewrite orb_true_r. symmetry. apply Nat.ltb_lt. lia.
+           ++ rewrite orb_false_r, Nat.add_0_r. reflexivity.
+        -- assert (N : r0 <> r) by (intro; subst r; rewrite rule_eqb_refl in Er; discriminate Er).
+           rewrite eg_of_set_other by exact N.
+           unfold in_eg. fold r0. rewrite Er, andb_false_r. cbn [andb b2n]. rewrite Nat.add_0_r. exact (conj E1 E2).
+      * destruct (He _ _ r Hn) as [E1 E2]. unfold in_eg.
+        replace (Nat.eqb (t_file x) f) with false by (symmetry; apply Nat.eqb_neq; exact N).
+        cbn [andb b2n]. rewrite Nat.add_0_r. exact (conj E1 E2).
+    + intros t' x' Hn. rewrite length_upd. apply nth_upd_cases in Hn. destruct Hn as [(_ & -> & _)|(_ & Hn)]; [cbn|]; eauto.
+    + intros f fs' Hn. apply nth_upd_cases in Hn. destruct Hn as [(<- & -> & _)|(N & Hn)]; [|eauto].
+      pose proof (Hp _ _ Hf) as P. unfold pc_ok in *. rewrite f_pc_set_eg.
+      destruct (f_pc fs) as [|[|]| |[|]]; auto.
+      * (* FWait PY *) destruct r0 eqn:Er0; cbn [set_eg f_sc eg_of] in *; [lia|exact P].
+      * (* FPost *) destruct r0 eqn:Er0; cbn [set_eg f_sc eg_of] in *; [lia|exact P].
+      * (* FDone true *) destruct r0; cbn [set_eg f_sc f_py eg_err eg_of] in *; destruct P as [P|P]; rewrite ?P; cbn; auto.
+      * (* FDone false *) destruct r0 eqn:Er0; cbn [set_eg f_sc f_py eg_of] in *; lia.
+    + refine (main_ok_files st _ _ Hm (or_introl eq_refl) _ _ _ _ _).
+      * apply (forallb_upd _ _ _ fs _ Hf). apply pc_same_done. apply f_pc_set_eg.
+      * apply (existsb_upd _ _ _ fs _ Hf). apply pc_same_done. apply f_pc_set_eg.
+  - (* done *)
+    destruct (nth_error (s_tasks st) t) as [x|] eqn:Hx; [|discriminate H].
+    destruct (phase_eqb (t_phase x) PCalled) eqn:Hph; [|discriminate H]. phase_of Hph.
+    destruct (nth_error (s_files st) (t_file x)) as [fs|] eqn:Hf; [|discriminate H].
+    injection H as <-.
+    assert (Lx : live x = true) by (unfold live; now rewrite Hph).
+    pose proof (live_pending st t x fs He Hx Lx Hf) as Pend.
+    set (r0 := i_rule (t_inv x)) in *.
+    constructor; unfold eg_ok; cbn [with_file with_task with_main s_tasks s_files s_main s_wg].
+    + intros f fs' r Hn.
+      assert (CF : cnt (failed_in f r) (upd (s_tasks st) t (set_phase x PDone)) = cnt (failed_in f r) (s_tasks st)).
+      { apply (cnt_upd_same _ _ _ x _ Hx). unfold failed_in, called. cbn. now rewrite Hph. }
+      assert (CL : cnt (live_in f r) (upd (s_tasks st) t (set_phase x PDone)) + b2n (in_eg f r x) =
+                   cnt (live_in f r) (s_tasks st)).
+      { assert (Lx' : live_in f r x = in_eg f r x) by (unfold live_in; rewrite Lx; apply andb_true_r).
+        assert (Ly : live_in f r (set_phase x PDone) = false) by (unfold live_in, live; cbn; apply andb_false_r).
+        pose proof (cnt_upd' (live_in f r) _ _ _ (set_phase x PDone) _ _ Hx Lx' Ly) as C. cbn [b2n] in C. lia. }
+      rewrite CF.
+      apply nth_upd_cases in Hn. destruct Hn as [(<- & -> & _)|(N & Hn)].
+      * destruct (He _ _ r Hf) as [E1 E2].
+        destruct (rule_eqb r0 r) eqn:Er.
+        -- apply rule_eqb_eq in Er. subst r. rewrite eg_of_set_same. cbn [eg_pending eg_err].
+           unfold in_eg in CL. fold r0 in CL. rewrite Nat.eqb_refl, rule_eqb_refl in CL. cbn [andb b2n] in CL.
+           split; [lia|exact E2].
+        -- assert (N : r0 <> r) by (intro; subst r; rewrite rule_eqb_refl in Er; discriminate Er).
+           rewrite eg_of_set_other by exact N.
+           unfold in_eg in CL. fold r0 in CL. rewrite Er, andb_false_r in CL. cbn [b2n] in CL.
+           split; [lia|exact E2].
+      * destruct (He _ _ r Hn) as [E1 E2]. unfold in_eg in CL.
+        replace (Nat.eqb (t_file x) f) with false in CL by (symmetry; apply Nat.eqb_neq; exact N).
+        cbn [andb b2n] in CL. split; [lia|exact E2].
+    + intros t' x' Hn. rewrite length_upd. apply nth_upd_cases in Hn. destruct Hn as [(_ & -> & _)|(_ & Hn)]; [cbn|]; eauto.
+    + intros f fs' Hn. apply nth_upd_cases in Hn. destruct Hn as [(<- & -> & _)|(N & Hn)]; [|eauto].
+      pose proof (Hp _ _ Hf) as P. unfold pc_ok in *. rewrite f_pc_set_eg.
+      destruct (f_pc fs) as [|[|]| |[|]]; auto.
+      * destruct r0 eqn:Er0; cbn [set_eg f_sc eg_of] in *; [lia|exact P].
+      * destruct r0 eqn:Er0; cbn [set_eg f_sc eg_of] in *; [lia|exact P].
+      * destruct r0; cbn [set_eg f_sc f_py eg_err eg_of] in *; exact P.
+      * destruct r0 eqn:Er0; cbn [set_eg f_sc f_py eg_of] in *; lia.
+    + refine (main_ok_files st _ _ Hm (or_intror eq_refl) _ _ _ _ _).
+      * apply (forallb_upd _ _ _ fs _ Hf). apply pc_same_done. apply f_pc_set_eg.
+      * apply (existsb_upd _ _ _ fs _ Hf). apply pc_same_done. apply f_pc_set_eg.
+  - (* eg enter *)
+    destruct (nth_error (s_files st) f) as [fs|] eqn:Hf; [|discriminate H].
+    assert (NotDone : (forall e, f_pc fs <> FDone e) ->
+              main_ok st -> s_main st = MRun).
+    { intros ND M. destruct (s_main st) eqn:Em; auto; exfalso;
+        (assert (D : all_files_done st = true) by (unfold main_ok in M; rewrite Em in M; tauto));
+        destruct (all_done_nth _ _ _ D Hf) as [e E]; exact (ND e E). }
+    assert (G : forall pc' : fpc, (forall e, f_pc fs <> FDone e) ->
+              (match pc' with FWait SC => True | FWait PY => pc_ok fs /\ (f_pc fs = FPost) | _ => False end) ->
+              InvB (with_file st f (set_pc fs pc'))).
+    { intros pc' ND Hpc'. pose proof (NotDone ND Hm) as Em.
+      constructor; unfold eg_ok; cbn [with_file with_task with_main s_tasks s_files s_main s_wg].
+      - intros f' fs' r' Hn. apply nth_upd_cases in Hn. destruct Hn as [(<- & -> & _)|(N & Hn)]; [|eauto].
+        replace (eg_of (set_pc fs pc') r') with (eg_of fs r') by (destruct r'; reflexivity). eauto.
+      - intros t x Hn. rewrite length_upd. eauto.
+      - intros f' fs' Hn. apply nth_upd_cases in Hn. destruct Hn as [(<- & -> & _)|(N & Hn)]; [|eauto].
+        unfold pc_ok. cbn [set_pc f_pc f_sc f_py].
+        destruct pc' as [|[|]| |]; try contradiction; auto.
+        destruct Hpc' as [P E]. unfold pc_ok in P. rewrite E in P. exact P.
+      - unfold main_ok, with_file. cbn [s_main]. rewrite Em. exact I. }
+    destruct r, (f_pc fs) eqn:Hpc; try discriminate H.
+    + destruct (f_todo fs); [|discriminate H]. injection H as <-. apply G; [intros e; discriminate|exact I].
+    + injection H as <-. apply G; [intros e; discriminate|]. split; [|reflexivity].
+      pose proof (Hp _ _ Hf) as P. exact P.
+  - (* eg return *)
+    destruct (nth_error (s_files st) f) as [fs|] eqn:Hf; [|discriminate H].
+    destruct (f_pc fs) as [|r'| |] eqn:Hpc; try discriminate H.
+    destruct (rule_eqb r r') eqn:Er; [|discriminate H]. apply rule_eqb_eq in Er. subst r'.
+    destruct (Nat.eqb (eg_pending (eg_of fs r)) 0) eqn:E0; [|discriminate H]. apply Nat.eqb_eq in E0.
+    destruct (Bool.eqb err (eg_err (eg_of fs r))) eqn:E1; [|discriminate H]. apply Bool.eqb_prop in E1.
+    cbn [andb] in H. injection H as <-.
+    assert (Em : s_main st = MRun).
+    { destruct (s_main st) eqn:Em; auto; exfalso;
+        (assert (D : all_files_done st = true) by (unfold main_ok in Hm; rewrite Em in Hm; tauto));
+        destruct (all_done_nth _ _ _ D Hf) as [e E]; rewrite E in Hpc; discriminate Hpc. }
+    pose proof (Hp _ _ Hf) as P. unfold pc_ok in P. rewrite Hpc in P.
+    constructor; unfold eg_ok; cbn [with_file with_task with_main s_tasks s_files s_main s_wg].
+    + intros f' fs' r' Hn. apply nth_upd_cases in Hn. destruct Hn as [(<- & -> & _)|(N & Hn)]; [|eauto].
+      match goal with |- context [eg_of (set_pc fs ?pc) r'] =>
+        replace (eg_of (set_pc fs pc) r') with (eg_of fs r') by (destruct r'; reflexivity) end. eauto.
+    + intros t x Hn. rewrite length_upd. eauto.
+    + intros f' fs' Hn. apply nth_upd_cases in Hn. destruct Hn as [(<- & -> & _)|(N & Hn)]; [|eauto].
+      unfold pc_ok. cbn [set_pc f_pc f_sc f_py].
+      destruct err.
+      * destruct r; cbn [eg_of] in E1; auto.
+      * destruct r; cbn [eg_of] in E0, E1.
+        -- auto.
+        -- destruct P as [P1 P2]. auto.
+    + unfold main_ok, with_file. cbn [s_main]. rewrite Em. exact I.
+  - (* proc.wait enter *)
+    destruct (s_main st) eqn:Em; try discriminate H.
+    destruct (all_files_done st) eqn:D; [|discriminate H]. cbn [andb orb] in H. injection H as <-.
+    constructor; unfold eg_ok; cbn [with_file with_task with_main s_tasks s_files s_main s_wg]; auto.
+  - (* proc.wait return *)
+    destruct (s_main st) eqn:Em; try discriminate H.
+    destruct (Nat.eqb (s_wg st) 0) eqn:E0; [|discriminate H]. apply Nat.eqb_eq in E0. injection H as <-.
+    unfold main_ok in Hm. rewrite Em in Hm.
+    constructor; unfold eg_ok; cbn [with_file with_task with_main s_tasks s_files s_main s_wg]; auto.
+    unfold main_ok, all_files_done. cbn. auto.
+  - (* return *)
+    destruct (s_main st) eqn:Em; try discriminate H.
+    destruct (Bool.eqb fatal (any_file_err st)) eqn:E1; [|discriminate H]. apply Bool.eqb_prop in E1.
+    injection H as <-. unfold main_ok in Hm. rewrite Em in Hm. destruct Hm as [M1 M2].
+    constructor; unfold eg_ok; cbn [with_file with_task with_main s_tasks s_files s_main s_wg]; auto.
+    unfold main_ok, all_files_done, any_file_err. cbn. auto.
+Qed.
